@@ -152,7 +152,11 @@ fn is_allowed_char_after_keyword(ch: char) -> bool {
     ch != '.' && ch != '$' && !ch.is_ascii_alphanumeric()
 }
 
-const MAX_LENGTH: usize = 40;
+/// The maximum length of an identifier used as a name.
+///
+/// The tokenizer does not enforce it: a run of letters and digits inside
+/// a string literal, a comment or a DATA item is not a name.
+pub(crate) const MAX_IDENTIFIER_LENGTH: usize = 40;
 
 fn identifier() -> impl Parser<StringView, Output = Token, Error = ParserError> {
     read_p()
@@ -163,13 +167,6 @@ fn identifier() -> impl Parser<StringView, Output = Token, Error = ParserError> 
                 .zero_or_more(),
             StringCombiner,
         )
-        .and_then(|value| {
-            if value.len() > MAX_LENGTH {
-                Err(ParserError::IdentifierTooLong)
-            } else {
-                Ok(value)
-            }
-        })
         .to_token(TokenType::Identifier)
 }
 
